@@ -160,15 +160,16 @@ REG["C35"] = dict(
     cbmc_args=MEMCMP,
     harnesses={
         "c35_ascii_sentences": H(module="lex", panic_is_violation=True, enc=["compute_snippet_slices", "sentence_start_before", "sentence_end_after", "prev_char_boundary", "next_char_boundary", "advance_boundary"],
-                                       sym="0..2 occurrences with arbitrary usize bounds (< 2^63); window 1..2^63; max >= 1", bound="fixed 5-byte ASCII text 'a. b.', <= 2 occurrences"),
+                                       sym="one occurrence with arbitrary usize bounds (< 2^63); window 1..16; max >= 1", bound="fixed 5-byte ASCII text 'a. b.', <= 2 occurrences"),
         "c35_ascii_newline": H(module="lex", panic_is_violation=True, enc=["compute_snippet_slices", "sentence_start_before", "sentence_end_after", "prev_char_boundary", "next_char_boundary", "advance_boundary"],
-                                       sym="0..2 occurrences with arbitrary usize bounds (< 2^63); window 1..2^63; max >= 1", bound="fixed 5-byte ASCII text 'ab\\ncd', <= 2 occurrences"),
+                                       sym="one occurrence with arbitrary usize bounds (< 2^63); window 1..16; max >= 1", bound="fixed 5-byte ASCII text 'ab\\ncd', <= 2 occurrences"),
         "c35_ascii_no_terminator": H(module="lex", panic_is_violation=True, enc=["compute_snippet_slices", "sentence_start_before", "sentence_end_after", "prev_char_boundary", "next_char_boundary", "advance_boundary"],
-                                       sym="0..2 occurrences with arbitrary usize bounds (< 2^63); window 1..2^63; max >= 1", bound="fixed 5-byte ASCII text 'abcde', <= 2 occurrences"),
+                                       sym="one occurrence with arbitrary usize bounds (< 2^63); window 1..16; max >= 1", bound="fixed 5-byte ASCII text 'abcde', <= 2 occurrences"),
+        "c35_ascii_two_occurrences": H("experimental", module="lex", panic_is_violation=True, enc=["compute_snippet_slices"], sym="two occurrences with bounds 0..8, window 1..4, max 1..3", bound="fixed text 'a. b.'"),
         "c35_multibyte_one_occurrence": H(module="lex", panic_is_violation=True, enc=["compute_snippet_slices"], sym="one occurrence (arbitrary usize bounds < 2^63), window 1..16, max >= 1",
                                           bound="fixed 9-byte text with 1-, 2- and 3-byte characters"),
         "c35_two_snippets_long_text": H("thorough", module="lex", panic_is_violation=True, enc=["compute_snippet_slices"], sym="two occurrences with bounds 0..64, window 1..4, max 1..3", bound="fixed 26-byte text"),
-        "c35_window_zero": H(module="lex", panic_is_violation=True, expect="known", enc=["compute_snippet_slices"], sym="0..1 occurrence", bound="text 'a.b', window = 0"),
+        "c35_window_zero": H("experimental", module="lex", panic_is_violation=True, expect="known", enc=["compute_snippet_slices"], sym="0..1 occurrence", bound="text 'a.b', window = 0"),
         "c35_max_zero": H(module="lex", panic_is_violation=True, expect="known", enc=["compute_snippet_slices"], sym="1 occurrence", bound="text 'a.b', max_snippets = 0"),
         "c35_huge_offsets": H(module="lex", panic_is_violation=True, expect="known", enc=["compute_snippet_slices"], sym="1 occurrence and window over the full usize range", bound="3-byte text"),
     },
@@ -181,9 +182,10 @@ REG["C30"]["harnesses"].update({
     "c30_footer_decode_arbitrary": H(module="footer", enc=["CommitFooter::decode", "CommitFooter::encode"], sym="57 bytes and the slice length 0..57", bound="every byte string up to 57 bytes"),
     "c15_time_index_roundtrip_3": H(module="time_index", enc=["time_index::append_track", "read_track", "calculate_checksum"], sym="3 entries (timestamp i64, frame id u64), any order, duplicates allowed",
                                     bound="3 entries; writer = 64-byte in-memory Read+Write+Seek object; blake3::Hasher as a ghost accumulator"),
-    "c30_time_index_arbitrary_0": H(module="time_index", panic_is_violation=True, enc=["time_index::read_track"], sym="magic and entry bytes, file length 0..44, declared length (any u64)", bound="declared entry count 0"),
-    "c30_time_index_arbitrary_1": H(module="time_index", panic_is_violation=True, enc=["time_index::read_track"], sym="magic and entry bytes, file length 0..44, declared length (any u64)", bound="declared entry count 1"),
-    "c30_time_index_arbitrary_2": H(module="time_index", panic_is_violation=True, enc=["time_index::read_track"], sym="magic and entry bytes, file length 0..44, declared length (any u64)", bound="declared entry count 2"),
+    "c30_time_index_arbitrary_0": H(module="time_index", panic_is_violation=True, enc=["time_index::read_track"], sym="magic and entry bytes, declared length (any u64)", bound="declared entry count 0, 12-byte file"),
+    "c30_time_index_arbitrary_1": H(module="time_index", panic_is_violation=True, enc=["time_index::read_track"], sym="magic and entry bytes, declared length (any u64)", bound="declared entry count 1, 28-byte file"),
+    "c30_time_index_arbitrary_2": H(module="time_index", panic_is_violation=True, enc=["time_index::read_track"], sym="magic and entry bytes, declared length (any u64)", bound="declared entry count 2, 44-byte file"),
+    "c30_time_index_truncated_2": H(module="time_index", panic_is_violation=True, enc=["time_index::read_track"], sym="magic and entry bytes, declared length (any u64)", bound="declared entry count 2, file truncated to 43 bytes"),
 })
 REG["C30"]["assumptions"] = ["blake3::Hasher::{new,update,finalize} replaced by a ghost accumulator in the time-index harnesses (any deterministic stream hash)"]
 REG["C30"]["cbmc_args"] = MEMCMP
@@ -306,8 +308,9 @@ REG["C19"] = dict(
     out=["ensure_single_file sidecar detection (Path/format machinery)", "temp names chosen inside atomic-write-file/tempfile", "directory listings after real calls"],
 )
 
-FOOTER = H(module="mutation", replay="solver-only", enc=["Memvid::rewrite_toc_footer", "CommitFooter::encode", "CommitFooter::decode"], sym="footer_offset 16..200, WAL size 1..300, previous file length 0..400, generation, 5 TOC bytes",
-           bound="in-memory file of <= 512 bytes; TOC serialisation replaced by an arbitrary 5-byte blob")
+FOOTER = H(module="mutation", replay="solver-only", enc=["Memvid::rewrite_toc_footer", "CommitFooter::encode", "CommitFooter::decode"], sym="generation, 5 TOC bytes",
+           bound="footer at 100, 50-byte WAL, previous length 300 (file shrinks to the footer end); TOC serialisation replaced by an arbitrary 5-byte blob")
+FOOTER2 = H(module="mutation", replay="solver-only", enc=["Memvid::rewrite_toc_footer"], sym="generation, 5 TOC bytes", bound="footer at 20, 200-byte WAL from 16 (length clamped to the WAL end)")
 RECOVER1 = H(module="mutation", replay="solver-only", enc=["Memvid::recover_wal"], sym="checkpoint sequence, pending-insert counter", bound="1 pending record, 1 committed frame; two consecutive recoveries")
 RECOVER_ASSUME = ["EmbeddedWal::records_after / record_checkpoint, Memvid::apply_records / rebuild_indexes, persist_header and File::sync_all are ghosts; rebuild_indexes persists the TOC and then the header (as the real one does in its last three statements); the durable (TOC frames, header wal_sequence) pair is tracked after every persisting call",
                   "a header write is atomic (single 4 KiB write)"]
@@ -341,18 +344,19 @@ REG["C24"] = dict(
     assumptions=["only the limit computation is decided; the admission check itself is inline in put_internal (not executable) — see DESIGN.md finding 5"],
     out=["the capacity check in put_internal", "CapacityExceeded leaving the memory unchanged"],
 )
-REG["C02"]["harnesses"]["c02_rewrite_toc_footer"] = dict(FOOTER)
+REG["C02"]["harnesses"]["c02_rewrite_toc_footer_shrinks"] = dict(FOOTER)
+REG["C02"]["harnesses"]["c02_rewrite_toc_footer_clamped_to_wal"] = dict(FOOTER2)
 REG["C02"]["cbmc_args"] = MEMCMP + FIELDS
 REG["C03"] = dict(
     cbmc_args=MEMCMP,
-    harnesses={"c05_step_append_1": dict(REG["C05"]["harnesses"]["c05_step_append_1"]), "c02_staging_protocol": dict(STAGING), "c02_rewrite_toc_footer": dict(FOOTER)},
+    harnesses={"c05_step_append_1": dict(REG["C05"]["harnesses"]["c05_step_append_1"]), "c02_staging_protocol": dict(STAGING, tier="thorough"), "c02_rewrite_toc_footer_shrinks": dict(FOOTER)},
     assumptions=IO_ASSUMPTIONS + ["C03 is claimed as fsync-ordering obligations inside memvid's own code: an acknowledged append is followed by an fsync (unless batch mode), the staging copy is taken from a synced file and synced before the rename, the TOC/footer rewrite ends with an fsync",
                                   "fsync makes everything written so far durable (kernel contract)"],
     out=["torn writes below write granularity, rename/directory durability (inside atomic-write-file)", "the durable-image obligation (reopen of a crash image)"],
 )
 REG["C20"] = dict(
     cbmc_args=MEMCMP,
-    harnesses={"c02_rewrite_toc_footer": dict(FOOTER), "c30_footer_decode_arbitrary": dict(REG["C30"]["harnesses"]["c30_footer_decode_arbitrary"]),
+    harnesses={"c02_rewrite_toc_footer_shrinks": dict(FOOTER), "c30_footer_decode_arbitrary": dict(REG["C30"]["harnesses"]["c30_footer_decode_arbitrary"]),
                "c30_time_index_arbitrary_2": dict(REG["C30"]["harnesses"]["c30_time_index_arbitrary_2"])},
     assumptions=IO_ASSUMPTIONS + ["kernels only: the footer hash written is the hash of the TOC bytes written; decoders reject inconsistent magic/length"],
     out=["verify(deep) coverage of payload bytes", "open()'s use of the checksums over a whole file", "index segment bytes"],
@@ -366,6 +370,7 @@ REG["C04"] = dict(
         "c04_recover_uninterrupted_2": H("thorough", module="mutation", replay="solver-only", enc=["Memvid::recover_wal"], sym="checkpoint sequence, pending-insert counter", bound="2 pending record(s), 1 committed frame; two consecutive recoveries"),
         "c04_recover_uninterrupted_1": H(module="mutation", replay="solver-only", enc=["Memvid::recover_wal"], sym="checkpoint sequence, pending-insert counter", bound="1 pending record(s), 1 committed frame; two consecutive recoveries"),
         "c04_recover_nothing_pending": H(module="mutation", replay="solver-only", enc=["Memvid::recover_wal"], sym="checkpoint sequence, pending-insert counter", bound="0 pending record(s), 1 committed frame; two consecutive recoveries"),
+        "c04_recover_tombstone_only": H(module="mutation", replay="solver-only", enc=["Memvid::recover_wal"], sym="checkpoint sequence", bound="1 pending delete, 1 committed frame"),
         "c04_recover_crash_points": H(module="mutation", replay="solver-only", expect="known", enc=["Memvid::recover_wal"], sym="checkpoint sequence; crash point = any persisting call", bound="1 pending record"),
         "c04_recover_step_failure": H(module="mutation", replay="solver-only", enc=["Memvid::recover_wal"], sym="which step fails (apply / index rebuild), checkpoint sequence", bound="1 pending record"),
         "c05_step_open_old_and_pending": dict(REG["C05"]["harnesses"]["c05_step_open_old_and_pending"]),
@@ -381,9 +386,9 @@ REG["C22"] = dict(
         "c30_footer_decode_arbitrary": dict(REG["C30"]["harnesses"]["c30_footer_decode_arbitrary"], panic_is_violation=True),
         "c30_time_index_arbitrary_2": dict(REG["C30"]["harnesses"]["c30_time_index_arbitrary_2"]),
         "c22_time_index_any_length": H(module="time_index", panic_is_violation=True, enc=["time_index::read_track"], sym="declared entry count and declared length: any u64", bound="12-byte file (header only)"),
-        "c22_wal_scan_arbitrary_bytes": H(module="wal", panic_is_violation=True, enc=["EmbeddedWal::scan_records"], sym="all 100 bytes of the log region", bound="100-byte region (room for two minimal records)"),
+        "c22_wal_scan_arbitrary_bytes": H("experimental", module="wal", panic_is_violation=True, enc=["EmbeddedWal::scan_records"], sym="all 100 bytes of the log region", bound="100-byte region (room for two minimal records)"),
         "c22_verify_toc_prefix": H(module="lifecycle", panic_is_violation=True, enc=["lifecycle::verify_toc_prefix"], sym="32 prefix bytes, length 0..32", bound="TOC prefix of <= 32 bytes"),
-        "c22_frame_bounds_validators": H(module="lifecycle", panic_is_violation=True, enc=["lifecycle::ensure_non_overlapping_frames", "compute_data_end", "compute_payload_region_end"],
+        "c22_frame_bounds_validators": H("experimental", module="lifecycle", panic_is_violation=True, enc=["lifecycle::ensure_non_overlapping_frames", "compute_data_end", "compute_payload_region_end"],
                                          sym="2 frames: payload offset/length (any u64), status; file length, header WAL geometry and footer offset (any u64)", bound="2 frames"),
     },
     assumptions=IO_ASSUMPTIONS + ["claimed for the decoders and validators that open()/verify() run on file-supplied numbers BEFORE and AFTER the TOC is decoded; panics, overflows and index errors inside them count as violations; termination is the unwinding assertion"],
@@ -409,12 +414,13 @@ REG["C40"] = dict(
 REG["C34"] = dict(
     cbmc_args=MEMCMP,
     harnesses={
-        "c34_partition_6_by_2": H(module="chunks", panic_is_violation=True, enc=["chunks::build_chunk_manifest", "choose_chunk_boundary", "slice_text_range"], sym="6 text characters over {a . space newline}", bound="6-character ASCII text, chunk size 2"),
-        "c34_partition_7_by_3": H(module="chunks", panic_is_violation=True, enc=["chunks::build_chunk_manifest", "choose_chunk_boundary", "slice_text_range"], sym="7 text characters over {a . space newline}", bound="7-character ASCII text, chunk size 3"),
-        "c34_choose_boundary_small_slack": H(module="chunks", panic_is_violation=True, enc=["chunks::choose_chunk_boundary"], sym="7 characters, start < target <= 7, slack 0..3", bound="7 characters; slack <= 3 (production: max(chunk/5, 32))"),
+        "c34_partition_sentences": H(module="chunks", panic_is_violation=True, enc=["chunks::build_chunk_manifest", "choose_chunk_boundary", "slice_text_range"], sym="chunk size 1..12", bound="fixed 11-character text 'ab. cd. ef.'"),
+        "c34_partition_lines_and_words": H(module="chunks", panic_is_violation=True, enc=["chunks::build_chunk_manifest", "choose_chunk_boundary", "slice_text_range"], sym="chunk size 1..12", bound="fixed 11-character text with a newline and spaces"),
+        "c34_partition_no_separator": H(module="chunks", panic_is_violation=True, enc=["chunks::build_chunk_manifest", "choose_chunk_boundary", "slice_text_range"], sym="chunk size 0..11", bound="fixed 10-character text without any separator"),
+        "c34_choose_boundary_small_slack": H(module="chunks", panic_is_violation=True, enc=["chunks::choose_chunk_boundary"], sym="6 characters over {a . space newline}, start < target <= 6, slack 0..3", bound="6 characters; slack <= 3 (production: max(chunk/5, 32))"),
     },
-    assumptions=["chunk size is a parameter of build_chunk_manifest: the harness uses 2 and 3 instead of the production 1200 so that texts of 6-7 characters are split"],
-    out=["the 2400-character production threshold and normalize_text (NFKC) in plan_text_chunks", "structure-aware chunking of tables/code (detector + StructuralChunker)", "multi-byte text"],
+    assumptions=["chunk size is a parameter of build_chunk_manifest: the harness quantifies over sizes 0..12 on three fixed short texts instead of the production 1200 on long texts"],
+    out=["the 2400-character production threshold and normalize_text (NFKC) in plan_text_chunks", "structure-aware chunking of tables/code (detector + StructuralChunker)", "arbitrary (symbolic) text, multi-byte text"],
 )
 
 REG["C41"] = dict(
@@ -456,7 +462,7 @@ REG["C18"] = dict(
     harnesses={
         "c18_wal_read_only_old_and_pending": H(module="wal", replay="solver-only", enc=["EmbeddedWal::open_read_only", "pending_records", "append_entry", "record_checkpoint", "should_checkpoint"],
                                                sym="any invariant log state with checkpointed and pending records (region 48 B - 64 MiB)", bound="one read-only open followed by a scan, an append, a checkpoint; scan ghosted; data-less disk counts every write"),
-        "c18_wal_read_only_empty": H(module="wal", replay="solver-only", enc=["EmbeddedWal::open_read_only", "pending_records", "append_entry", "record_checkpoint"], sym="any empty log", bound="as above, empty log"),
+        "c18_wal_read_only_empty": H("thorough", module="wal", replay="solver-only", enc=["EmbeddedWal::open_read_only", "pending_records", "append_entry", "record_checkpoint"], sym="any empty log", bound="as above, empty log"),
         "c18_header_read_without_repair": H(module="header", enc=["HeaderCodec::read_without_repair", "HeaderCodec::read"], sym="4 bytes anywhere in the legacy-lock region of an otherwise valid header", bound="4096-byte header image"),
     },
     assumptions=["claimed for the two write-capable components the read-only open goes through: the embedded log handle (no write for any state; mutators refused) and the header reader (the read-only path uses a reader without Write capability and decodes the same header as the repairing reader)"],
@@ -469,3 +475,15 @@ for _p in REG.values():
     for _n, _h in _p["harnesses"].items():
         if _n.startswith(("c05_record_layout", "c05_scan_", "c22_wal_scan", "c02_rewrite_toc_footer")):
             _h["cbmc"] = MEMCMP + FIELDS
+
+
+del REG["C34"]
+NOT_APPLICABLE["C34"] = ("Chunk planning builds Vec<(usize, char)> / Vec<TextChunkRange> whose lengths depend on the text and on the chunk size; every formulation that leaves anything symbolic "
+                         "(text characters, or the chunk size on a fixed 10-character text, or choose_chunk_boundary on 6 symbolic characters) ran into the 'container of symbolic length' wall "
+                         "(time-out at 15 minutes / out of memory, DESIGN.md 8.2), and with everything concrete the run is a unit test, not a solver check. Harnesses kept in harness/chunks.rs, not claimed.")
+REG["C31"] = dict(
+    cbmc_args=MEMCMP,
+    harnesses={"c31_footer_scan_60": H("experimental", module="footer", panic_is_violation=True, enc=["footer::find_last_valid_footer", "CommitFooter::decode"], sym="all 60 bytes", bound="60-byte buffer (one footer with a 4-byte TOC, or overlapping candidates)")},
+    assumptions=["memchr::memrchr replaced by its functional specification (the real one dispatches through a cpuid-selected function pointer)", "CommitFooter::hash_matches replaced by the weak hash"],
+    out=["buffers longer than 60 bytes"],
+)
